@@ -112,23 +112,8 @@ SCOPES = {'call': 1, 'async': 2, 'notified': 3, 'forever': 4}
 ARRAY_KINDS = {'GLib.Array': 1, 'GLib.PtrArray': 2, 'GLib.ByteArray': 3}
 
 QUIRKS = {
-    'field-readable-inverted':
-        'girparser.c start_field: readable="0" is stored as readable, readable="1" as not readable',
     'field-bits-dropped':
         'girnode.c G_IR_NODE_FIELD: FieldBlob.bits is always written 0, the bits attribute is lost',
-    'attributes-land-on-container':
-        'girparser.c start_attribute: <attribute> inside <field>, <property>, <member> or a class/interface '
-        '<constant> is attached to the enclosing type instead of the member',
-    'return-skip-dropped':
-        'girnode.c CALLBACK/SIGNAL/VFUNC: SignatureBlob.skip_return is written only for functions',
-    'deprecated-presence':
-        'girparser.c: deprecated="0" (and glib:fundamental="0") count as set because only presence is tested',
-    'return-allow-none-ignored':
-        'girparser.c start_return_value: allow-none="1" on <return-value> is not read (may_return_null stays 0)',
-    'return-attributes-dropped':
-        'girnode.c CALLBACK/VFUNC: attributes of <return-value> are written only for functions and signals',
-    'property-deprecated-dropped':
-        'girparser.c start_property: the deprecated attribute of <property> is not read (PropertyBlob.deprecated stays 0)',
 }
 
 
@@ -169,8 +154,6 @@ class Oracle(object):
         return v == '1'
 
     def deprecated(self, el):
-        if 'deprecated-presence' in self.quirks:
-            return el.get('deprecated') is not None
         return el.get('deprecated') == '1'
 
     def introspectable(self, el):
@@ -277,19 +260,11 @@ class Oracle(object):
         params = el.find(q('parameters'))
         sig = {}
         sig['ret'] = self.x_type(self._type_child(rv))
-        nullable = self.flag(rv, 'nullable')
-        if 'return-allow-none-ignored' not in self.quirks:
-            nullable = nullable or self.flag(rv, 'allow-none')
-        sig['may_return_null'] = nullable
+        # nullable, or its older spelling allow-none (both in the schema for a return value)
+        sig['may_return_null'] = self.flag(rv, 'nullable') or self.flag(rv, 'allow-none')
         sig['transfer'] = self.transfer(rv)
-        skip = self.flag(rv, 'skip')
-        if kind != 'function' and 'return-skip-dropped' in self.quirks:
-            skip = False
-        sig['skip_return'] = skip
-        ra = self.attrs_of(rv)
-        if kind in ('callback', 'vfunc') and 'return-attributes-dropped' in self.quirks:
-            ra = []
-        sig['ret_attrs'] = ra
+        sig['skip_return'] = self.flag(rv, 'skip')
+        sig['ret_attrs'] = self.attrs_of(rv)
         inst = None if params is None else params.find(q('instance-parameter'))
         sig['instance_transfer'] = inst is not None and inst.get('transfer-ownership') == 'full'
         args = []
@@ -342,56 +317,30 @@ class Oracle(object):
         c['sig']['throws'] = self.flag(el, 'throws')
         return c
 
-    def member_attrs(self, el, container_extra):
-        """attributes of a member element that the parser does not push as a node"""
-        if 'attributes-land-on-container' in self.quirks:
-            return []
-        return self.attrs_of(el)
-
-    LEAKING = ('field', 'property', 'member', 'constant')
-
-    def container_attrs(self, el, extra=None):
-        """attributes of a type element; under the quirk the attributes of its un-pushed members are
-        inserted into the same table in document order (a later one replaces an earlier one of the same name)"""
-        if 'attributes-land-on-container' not in self.quirks:
-            return self.attrs_of(el)
-        out = {}
-        leaking = [q(t) for t in self.LEAKING]
-        for c in el:
-            if c.tag == q('attribute'):
-                out[c.get('name')] = c.get('value')
-            elif c.tag in leaking and self.introspectable(c):
-                for a in c.findall(q('attribute')):
-                    out[a.get('name')] = a.get('value')
-        return sorted([k, v] for k, v in out.items())
-
-    def x_field(self, el, extra):
+    def x_field(self, el):
         if not self.introspectable(el):
             # the slot stays (it is part of the layout) but its type is hidden behind a gpointer
             f = {'name': el.get('name'), 'type': {'tag': 'void', 'pointer': True}, 'attrs': []}
         else:
-            f = {'name': el.get('name'), 'attrs': self.member_attrs(el, extra)}
+            f = {'name': el.get('name'), 'attrs': self.attrs_of(el)}
             cb = el.find(q('callback'))
             if cb is not None:
                 f['callback'] = self.x_callback(cb)
             else:
                 f['type'] = self.x_type(self._type_child(el), in_field=True)
         r = el.get('readable')
-        if 'field-readable-inverted' in self.quirks:
-            f['readable'] = r is None or r == '0'
-        else:
-            f['readable'] = r is None or r == '1'
+        f['readable'] = r is None or r == '1'
         f['writable'] = el.get('writable') == '1'
         f['bits'] = 0 if 'field-bits-dropped' in self.quirks else int(el.get('bits', '0')) & 0xFF
         return f
 
-    def x_property(self, el, extra):
+    def x_property(self, el):
         return {'name': el.get('name'),
-                'deprecated': False if 'property-deprecated-dropped' in self.quirks else self.deprecated(el),
+                'deprecated': self.deprecated(el),
                 'readable': self.flag(el, 'readable', True), 'writable': self.flag(el, 'writable'),
                 'construct': self.flag(el, 'construct'), 'construct_only': self.flag(el, 'construct-only'),
                 'transfer': self.transfer(el, 'none'), 'setter': el.get('setter'), 'getter': el.get('getter'),
-                'type': self.x_type(self._type_child(el)), 'attrs': self.member_attrs(el, extra)}
+                'type': self.x_type(self._type_child(el)), 'attrs': self.attrs_of(el)}
 
     def x_signal(self, el):
         when = (el.get('when') or 'last').lower()
@@ -409,11 +358,11 @@ class Oracle(object):
         v['sig']['throws'] = v['throws']
         return v
 
-    def x_constant(self, el, extra=None):
+    def x_constant(self, el):
         t = self.x_type(self._type_child(el))
         c = {'kind': 'constant', 'name': el.get('name'), 'deprecated': self.deprecated(el), 'type': t,
              'value_bytes': constant_bytes(t, el.get('value')),
-             'attrs': self.attrs_of(el) if extra is None else self.member_attrs(el, extra)}
+             'attrs': self.attrs_of(el)}
         return c
 
     def functions_of(self, el):
@@ -428,90 +377,83 @@ class Oracle(object):
         d['gtype_init'] = el.get(q('glib:get-type'))
 
     def x_record(self, el):
-        extra = []
         r = {'kind': 'struct', 'name': el.get('name'), 'deprecated': self.deprecated(el),
              'is_gtype_struct': el.get(q('glib:is-gtype-struct-for')) is not None,
              'foreign': self.flag(el, 'foreign'), 'copy_func': el.get('copy-function'),
              'free_func': el.get('free-function')}
         self.registered(el, r)
         r['unregistered'] = r['gtype_name'] is None
-        r['fields'] = [self.x_field(f, extra) for f in el.findall(q('field'))]
+        r['fields'] = [self.x_field(f) for f in el.findall(q('field'))]
         r['methods'] = self.functions_of(el)
-        r['attrs'] = self.container_attrs(el)
+        r['attrs'] = self.attrs_of(el)
         return r
 
     def x_union(self, el):
-        extra = []
         r = {'kind': 'union', 'name': el.get('name'), 'deprecated': self.deprecated(el),
              'copy_func': el.get('copy-function'), 'free_func': el.get('free-function')}
         self.registered(el, r)
         r['unregistered'] = r['gtype_name'] is None
-        r['fields'] = [self.x_field(f, extra) for f in el.findall(q('field'))]
+        r['fields'] = [self.x_field(f) for f in el.findall(q('field'))]
         r['methods'] = self.functions_of(el)
-        r['attrs'] = self.container_attrs(el)
+        r['attrs'] = self.attrs_of(el)
         return r
 
     def x_boxed(self, el):
-        extra = []
         r = {'kind': 'boxed', 'name': el.get(q('glib:name')), 'deprecated': self.deprecated(el),
              'is_gtype_struct': False, 'foreign': False, 'copy_func': None, 'free_func': None}
         self.registered(el, r)
         r['unregistered'] = False
-        r['fields'] = [self.x_field(f, extra) for f in el.findall(q('field'))]
+        r['fields'] = [self.x_field(f) for f in el.findall(q('field'))]
         r['methods'] = self.functions_of(el)
-        r['attrs'] = self.container_attrs(el)
+        r['attrs'] = self.attrs_of(el)
         return r
 
     def x_enum(self, el):
-        extra = []
         r = {'kind': 'enum' if el.tag == q('enumeration') else 'flags', 'name': el.get('name'),
              'deprecated': self.deprecated(el), 'error_domain': el.get(q('glib:error-domain'))}
         self.registered(el, r)
         r['unregistered'] = r['gtype_name'] is None
         vals = []
         for m in el.findall(q('member')):
-            a = self.member_attrs(m, extra)
+            a = self.attrs_of(m)
             cid = m.get(q('c:identifier'))
             a = sorted([x for x in a if x[0] != 'c:identifier'] + [['c:identifier', cid]])
             vals.append({'name': m.get('name'), 'value': int(m.get('value')), 'deprecated': self.deprecated(m),
                          'attrs': a})
         r['values'] = vals
         r['methods'] = [self.x_function(c) for c in el.findall(q('function')) if self.introspectable(c)]
-        r['attrs'] = self.container_attrs(el)
+        r['attrs'] = self.attrs_of(el)
         return r
 
     def x_class(self, el):
-        extra = []
         r = {'kind': 'object', 'name': el.get('name'), 'deprecated': self.deprecated(el),
              'abstract': self.flag(el, 'abstract'), 'final': self.flag(el, 'final'),
              'parent': None if el.get('parent') is None else self.iface_name(el.get('parent')),
              'gtype_struct': None if el.get(q('glib:type-struct')) is None else self.iface_name(el.get(q('glib:type-struct'))),
              'ref_func': el.get(q('glib:ref-func')), 'unref_func': el.get(q('glib:unref-func')),
              'set_value_func': el.get(q('glib:set-value-func')), 'get_value_func': el.get(q('glib:get-value-func'))}
-        fu = el.get(q('glib:fundamental'))
-        r['fundamental'] = (fu is not None) if 'deprecated-presence' in self.quirks else fu == '1'
+        r['fundamental'] = el.get(q('glib:fundamental')) == '1'
         self.registered(el, r)
         r['interfaces'] = [self.iface_name(i.get('name')) for i in el.findall(q('implements'))]
-        r['fields'] = [self.x_field(f, extra) for f in el.findall(q('field'))]
-        self._iface_members(el, r, extra)
-        r['attrs'] = self.container_attrs(el)
+        r['fields'] = [self.x_field(f) for f in el.findall(q('field'))]
+        self._iface_members(el, r)
+        r['attrs'] = self.attrs_of(el)
         return r
 
-    def _iface_members(self, el, r, extra):
-        r['properties'] = [self.x_property(p, extra) for p in el.findall(q('property')) if self.introspectable(p)]
+    def _iface_members(self, el, r):
+        r['properties'] = [self.x_property(p) for p in el.findall(q('property')) if self.introspectable(p)]
         r['methods'] = self.functions_of(el)
         r['signals'] = [self.x_signal(s) for s in el.findall(q('glib:signal')) if self.introspectable(s)]
         r['vfuncs'] = [self.x_vfunc(v) for v in el.findall(q('virtual-method')) if self.introspectable(v)]
-        r['constants'] = [self.x_constant(c, extra) for c in el.findall(q('constant')) if self.introspectable(c)]
+        r['constants'] = [self.x_constant(c) for c in el.findall(q('constant')) if self.introspectable(c)]
 
     def x_interface(self, el):
-        extra = []
         r = {'kind': 'interface', 'name': el.get('name'), 'deprecated': self.deprecated(el),
              'gtype_struct': None if el.get(q('glib:type-struct')) is None else self.iface_name(el.get(q('glib:type-struct')))}
         self.registered(el, r)
         r['prerequisites'] = [self.iface_name(i.get('name')) for i in el.findall(q('prerequisite'))]
-        self._iface_members(el, r, extra)
-        r['attrs'] = self.container_attrs(el)
+        self._iface_members(el, r)
+        r['attrs'] = self.attrs_of(el)
         return r
 
     def api(self, shared_library_option=None, quirks=None):
@@ -1911,35 +1853,20 @@ def classify_rejection(res):
 
 
 def explain_with_quirks(case, actual):
-    """-> (diffs_vs_schema, quirk subset explaining the decoded API or None)"""
+    """-> (diffs_vs_schema, subset of the named pending deviations that explains the decoded API exactly, or None)"""
+    import itertools
     orc = Oracle(case['gir'], case.get('deps', ()))
     opt = case.get('shlib_option')
     exp = orc.api(opt, quirks=())
     if exp == actual:
         return [], ()
     d0 = diff(exp, actual)
-    # all named deviations together; then drop every one that is not needed (they interact:
-    # deprecated="0" on a property needs 'deprecated-presence' to become visible and
-    # 'property-deprecated-dropped' to vanish again)
-    import itertools
-    need = None
     allq = sorted(QUIRKS)
-    for drop in range(0, 4):           # some of them may have been repaired meanwhile
-        for gone in itertools.combinations(allq, drop):
-            trial = [x for x in allq if x not in gone]
-            if orc.api(opt, quirks=trial) == actual:
-                need = trial
-                break
-        if need is not None:
-            break
-    if need is None:
-        return d0, None
-    for k in sorted(QUIRKS):
-        trial = [x for x in need if x != k]
-        if orc.api(opt, quirks=trial) == actual:
-            need = trial
-    return d0, tuple(need)
-
+    for size in range(1, len(allq) + 1):           # smallest explaining subset first
+        for sub in itertools.combinations(allq, size):
+            if orc.api(opt, quirks=sub) == actual:
+                return d0, sub
+    return d0, None
 
 
 # =====================================================================================
